@@ -85,12 +85,12 @@ func (s *JavaAPIListener) EnterAnnotation(ctx *parser.AnnotationContext) {
 		isSpringRestController = true
 	}
 
-	if !isSpringRestController {
+	if !hasEnterClass {
+		buildBaseApiUrlString(annotationName, ctx)
 		return
 	}
 
-	if !hasEnterClass {
-		buildBaseApiUrlString(annotationName, ctx)
+	if !isSpringRestController {
 		return
 	}
 
